@@ -23,6 +23,7 @@ abbrev Str := List Char
 inductive V
   | s (x : Str)
   | d (kv : List (Str × Str))
+  | t (x : Option (List Int))        -- a `*_parsed` value: the time tuple `_parse_date` returned, or None
 deriving DecidableEq, Repr
 
 /-- insertion-ordered dict -/
@@ -79,6 +80,7 @@ structure Ops where
   join : Str → Str → Str          -- _urljoin(baseuri or "", uri) for can_be_relative_uri elements
   fix : Str → Str                 -- iso-8859-1→utf-8 re-decode heuristic, then windows-1252 translate
   loose : Bool                    -- which back end's _normalize_attributes
+  parseDate : Str → Option (List Int) := fun _ => none     -- `_parse_date` on a non-empty string (M-date, C09)
 
 inductive Outcome
   | ok (s : MSt)
@@ -109,6 +111,10 @@ def matchNs : List (Str × Str) := Gen.Mixin.matchNamespacesL
 def hasStart (name : Str) : Bool := Gen.Mixin.startHandlersL.any (· == name)
 def hasEnd (name : Str) : Bool := Gen.Mixin.endHandlersL.any (· == name)
 def canBeRelativeUri : List Str := Gen.Mixin.canBeRelativeUriL
+/-- "simple date elements", recognised by the translator FROM THE SOURCE of their handlers: `_start_X` is
+`self.push(K, 1)` and `_end_X` is `value = self.pop(K); self._save(K_parsed, _parse_date(value), overwrite=True)`
+(directly, through an alias, or through a one-line delegation).  handler name ↦ (K, K_parsed) -/
+def dateKey (h : Str) : Option (Str × Str) := (Gen.Mixin.dateElementsL.find? (·.1 == h)).map (·.2)
 def keymap : Dict.Keymap := Dict.keymap
 
 /-- `FeedParserDict.__setitem__` key aliasing -/
@@ -187,6 +193,16 @@ def pop (o : Ops) (s : MSt) (element : Str) : MSt :=
     else if c.infeed then ⟨{ c with feed := fset c.feed element (.s output) }, rest⟩
     else ⟨c, rest⟩
 
+/-- the value `pop(element)` RETURNS (None on an empty or mismatched stack, mixin.py:485-489) -/
+def popValue (o : Ops) (s : MSt) (element : Str) : Option Str :=
+  match s.stack with
+  | [] => none
+  | top :: _ =>
+    if top.name != element then none else
+    let output0 := stripS top.pieces.flatten
+    let output1 := if canBeRelativeUri.contains element && !output0.isEmpty && element != S "id" then o.join s.c.base.baseuri.toList output0 else output0
+    some (o.fix output1)
+
 def push (s : MSt) (name : Str) (expecting : Bool) : MSt := { s with stack := ⟨name, expecting, []⟩ :: s.stack }
 
 /-! ### unknown_starttag / unknown_endtag / handle_data -/
@@ -239,6 +255,9 @@ def dispatchCore (s3 : Core) (h : Str) (attrsD : List (Str × Str)) : Except Str
         | some id => if id.isEmpty then s5 else setContext s5 (S "id") (.s id)
         | none => s5
       .ok (s6, some ⟨S "item", false, []⟩)
+  else if (dateKey h).isSome then
+    -- a simple date element: `self.push(K, 1)` whatever the attributes
+    .ok (s3, (dateKey h).map fun k => ⟨k.1, true, []⟩)
   else if hasStart h then .error (S "handler _start_" ++ h)
   else
     -- fallback: no handler (namespace declarations do not count as attributes)
@@ -264,7 +283,16 @@ def endTag (o : Ops) (s0 : MSt) (tag : Str) : Outcome :=
   else if h == S "item" || h == S "entry" then
     let s1 := pop o s0 (S "item")
     .ok ⟨endFinish o { s1.c with inentry := false }, s1.stack⟩
-  else if hasEnd h then .unmodelled (S "handler _end_" ++ h)
+  else match dateKey h with
+  | some (k, pk) =>
+    -- value = self.pop(K); self._save(K_parsed, _parse_date(value), overwrite=True)
+    let parsed : Option (List Int) := match popValue o s0 k with
+      | none => none
+      | some v => if v.isEmpty then none else o.parseDate v
+    let s1 := pop o s0 k
+    .ok ⟨endFinish o (setContext s1.c pk (.t parsed)), s1.stack⟩
+  | none =>
+  if hasEnd h then .unmodelled (S "handler _end_" ++ h)
   else
     let s1 := pop o s0 h
     .ok ⟨endFinish o s1.c, s1.stack⟩
